@@ -44,4 +44,12 @@ inductive ExpStep
   | resetEnviron    -- `expansions.update(self.environ_expansions)`
 deriving DecidableEq, Repr
 
+/-- what `Options.read_include_config` hands to `parser.expand_here()` after reading one file matched by an include
+    pattern (harness/sites/config.py `include_here`) -/
+inductive HereSrc
+  | matchedFile     -- `os.path.abspath(os.path.dirname(filename))`: the directory of the file just read
+  | pattern         -- the directory part of the include pattern (computed once per pattern)
+  | mainFile        -- `self.here`: the directory of the main configuration file
+deriving DecidableEq, Repr
+
 end Sv.Config
